@@ -1443,6 +1443,15 @@ class CodeGenerator(NodeVisitor):
             self.outdent()
 
     def visit_FilterBlock(self, node: nodes.FilterBlock, frame: Frame) -> None:
+        # If an extends is active, a filter block outside a block renders
+        # nothing, like any other output of a child template.
+        if frame.require_output_check:
+            if self.has_known_extends:
+                return
+
+            self.writeline("if parent_template is None:")
+            self.indent()
+
         filter_frame = frame.inner()
         filter_frame.symbols.analyze_node(node)
         self.enter_frame(filter_frame)
@@ -1461,6 +1470,9 @@ class CodeGenerator(NodeVisitor):
         self.write(")")
         self.end_write(frame)
         self.leave_frame(filter_frame)
+
+        if frame.require_output_check:
+            self.outdent()
 
     def visit_With(self, node: nodes.With, frame: Frame) -> None:
         with_frame = frame.inner()
